@@ -547,6 +547,24 @@ class SymNDArray:
         return [list(self.shape), [m.eval(self.byte_term(k), model_completion=True).as_long() for k in range(self.nbytes)]]
 
 
+class _NdarrayName:
+    """Stands for `np.ndarray` inside the yardl modules.  Called (np.ndarray(shape, dtype)) on a symbolic path it
+    yields a logical array of the numpy model; used as a class (isinstance(x, np.ndarray)) it is numpy's ndarray
+    (isinstance_shim follows `pysym_real`; a SymArray counts as an instance)."""
+
+    def __init__(self, real):
+        self._real = real
+        self.pysym_real = real.ndarray
+
+    def __call__(self, shape, dtype=float, *a, **kw):
+        if core.CUR is None or a or kw:
+            return self._real.ndarray(shape, dtype, *a, **kw)
+        return npmodel.new_array(shape, dtype)
+
+    def __getattr__(self, n):
+        return getattr(self._real.ndarray, n)
+
+
 class NumpyShim:
     """Stands for the name `np` inside the yardl modules: everything is numpy, except frombuffer on a
     symbolic buffer, which yields a SymNDArray window (no copy, as in numpy)."""
@@ -560,10 +578,9 @@ class NumpyShim:
             return npmodel.scalar_type_proxy(r)      # np.int16(x) keeps a symbolic x symbolic (numpy integer scalar model)
         return r
 
-    def ndarray(self, shape, dtype=float, *a, **kw):
-        if core.CUR is None or a or kw:
-            return self._real.ndarray(shape, dtype, *a, **kw)
-        return npmodel.new_array(shape, dtype)
+    @property
+    def ndarray(self):
+        return _NdarrayName(self._real)
 
     def frombuffer(self, buffer, dtype=float, count=-1, offset=0):
         if not isinstance(buffer, (SymBuf, SymSeq)):
@@ -745,6 +762,9 @@ def isinstance_shim(o, cls):
         return isinstance(cls, type) and issubclass(o.dtype.type, cls)
     if isinstance(o, npmodel.SymArray):
         return isinstance(cls, type) and issubclass(_np_ndarray(), cls)
+    if isinstance(o, npmodel.RecVal):            # an element of a structured array: numpy.void
+        import numpy
+        return isinstance(cls, type) and issubclass(numpy.void, cls)
     if cls is IntShim or cls is builtins.int:
         return isinstance(o, (int, SymInt, SymBool))
     if cls is BoolShim or cls is builtins.bool:
